@@ -2,6 +2,9 @@
 
 from __future__ import annotations
 
+import functools
+import itertools
+
 from fractions import Fraction
 from math import ceil
 
@@ -264,6 +267,31 @@ def _bin_triples_chunk(params, lo, hi):
     return r
 
 
+@functools.lru_cache(None)
+def _multisets8():
+    return list(itertools.combinations_with_replacement(range(1, 11), 8))
+
+
+def _bin_multiset8_chunk(params, lo, hi):
+    """every multiset of 8 item sizes from 1..10 in bins of capacity 10 (24 310 of them), listed ascending and interleaved,
+    four algorithms: the smallest size at which first-fit-decreasing can be two bins above the optimum and at which
+    'number of big items' arguments for optimality can be wrong. index = multiset*2 + order"""
+    ms = _multisets8()
+    r = new_result()
+    for idx in range(lo, hi):
+        sizes = list(ms[idx // 2])
+        if idx % 2:
+            sizes = sizes[::2] + sizes[1::2][::-1]
+        opt = min_bins([Fraction(x) for x in sizes], Fraction(10))
+        for algo in ALGOS:
+            errs, label = judge_binpack(sizes, 10, algo, True, opt)
+            _rec(r, "solve_bin_pack", errs, label, opt > 1, {"sizes": sizes, "capacity": 10, "algorithm": algo})
+        if len(r["violations"]) >= 40 or too_many_hangs():
+            r["capped"] = True
+            break
+    return r
+
+
 def _bin_dec_chunk(params, lo, hi):
     if isinstance(params, tuple):
         n, tenths = params
@@ -303,6 +331,7 @@ def jobs(tier, seed):
         js.append(Job(f"knapsack_decimal_n{n}", 18**n * 6 * 2, _knap_dec_chunk, n, describe="decimal weights/capacities, values 1..3"))
     for n in (2, 3, 4):
         js.append(Job(f"knapsack_fine_decimal_n{n}", 8**n * 3 * 2, _knap_fine_chunk, n, describe="weights in {0.3334,0.5001,0.2499,0.0004} (finer than the DP's scaling grid), capacities {1.0,0.75,0.001}, values {1,2}: capacity and objective clauses only"))
+    js.append(Job("binpack_8_items_all_multisets_cap10", 24310 * 2, _bin_multiset8_chunk, None, describe="every multiset of 8 sizes from 1..10, capacity 10, ascending and interleaved order, four algorithms"))
     js.append(Job("binpack_nine_items_three_sizes", len(TRIPLES) * 2, _bin_triples_chunk, None, describe="3 copies each of a<=b<=c in 1..12, capacity 20, ascending and interleaved order, 12 spellings of the four algorithm names"))
     js.append(Job("knapsack_big_integer_capacity", 3 * 64 * 8, _knap_big_chunk, None, chunk=8, describe="3 items, capacity in {100000,100001,200000}, weights in {1,2,C-2,C}, values {1,10}: exact integer data beyond the DP's table threshold"))
     for tenths, nmax_d in ((3, 5), (7, 5), (9, 4 if tier == "quick" else 5)):
